@@ -1,6 +1,7 @@
-(** C37 — executable exact pipeline (definitions only): finite distributions, the mid-p combinations with the opaque callees
-    of the generated code instantiated, and the Hardy-Weinberg test assembled from the GENERATED pieces the way
-    LeveneHaldane.apply / hardyWeinbergTest assemble them (exact sums, no cut-offs, exact ties). *)
+(** C37 — executable exact pipeline (definitions only): finite distributions, the class state LeveneHaldane.apply builds
+    (mode, stream prefixes, pN), the distribution it stands for, and the Hardy-Weinberg test assembled from the GENERATED pieces
+    (stream recurrences, mode, class methods LH_*, hwe_pvalue) the way LeveneHaldane.apply / hardyWeinbergTest assemble them
+    (exact sums, no cut-offs, exact ties; exactMidP is the hand model [exact_midp]). *)
 From HailV Require Import Common.Prelude CallPacking.Model Stats.Model.
 From Coq Require Import QArith Qabs.
 From HailG Require Import C37.Gen.
